@@ -56,9 +56,9 @@ TraceNext == /\ l <= Len(Traces[tid])
 TraceSpec == TraceInit /\ [][TraceNext]_tvars
 
 Progress(t) == TLCGet(t)
-TraceAccepted ==
-    \A t \in 1..Len(Traces) :
-        \/ Progress(t) = Len(Traces[t]) + 1
-        \/ (Progress(t) < 0 /\ PrintT(<<"READBACK", t, 0 - Progress(t)>>) /\ FALSE)
-        \/ (Progress(t) >= 0 /\ PrintT(<<"REJECTED", t, Progress(t)>>) /\ FALSE)
+TraceAccepted ==       \* every trace consumed completely and read back as specified; all the others are printed
+    LET bad == {t \in 1..Len(Traces) : Progress(t) # Len(Traces[t]) + 1}
+    IN /\ \A t \in bad : IF Progress(t) < 0 THEN PrintT(<<"READBACK", t, 0 - Progress(t)>>)
+                                            ELSE PrintT(<<"REJECTED", t, Progress(t)>>)
+       /\ bad = {}
 =============================================================================
